@@ -60,6 +60,31 @@ def block_views(ctx, gt, bi, blocks, model, address, size):
                                                   b.offset,
                                                   b.offset + b.size, want_c),
                               {})
+        # what a caller does to the returned bytes is the caller's business:
+        # it must not show in this block's, another block's or the
+        # interval's contents afterwards
+        got = b.contents
+        if isinstance(got, bytearray):
+            ctx.count("returned_contents_scribbled")
+            got += b"\xa5\x5a\xa5"
+            if len(got) > 3:
+                got[0] ^= 0xFF
+            for b2 in blocks:
+                w2 = bytes(model[b2.offset:b2.offset + b2.size]) \
+                    if b2.byte_interval is bi else b""
+                if bytes(b2.contents) != w2:
+                    raise Discrepancy(
+                        "C19", "block.contents-aliased",
+                        "after the bytes returned by one block's contents "
+                        "were edited by the caller, a block's contents are "
+                        "%r, interval bytes [%d:%d] are %r" % (
+                            bytes(b2.contents)[:24], b2.offset,
+                            b2.offset + b2.size, w2[:24]), {})
+            if bytes(bi.contents) != bytes(model):
+                raise Discrepancy(
+                    "C19", "interval.contents-aliased",
+                    "editing the bytes returned by block.contents changed "
+                    "the interval's stored bytes", {})
         for p in pts:
             ctx.count("block_view_checks", 2)
             want = b.offset <= p < b.offset + b.size
